@@ -170,6 +170,22 @@ pub struct F23 {
     pub d: Vec<u32>,
 }
 
+#[derive(Debug, Clone, PartialEq, Serialize, Deserialize)]
+pub struct SelfNest {
+    #[serde(default)]
+    pub b: Vec<String>,
+}
+/// three overlapped lists; the items of `b` have children that are named `b` themselves
+#[derive(Debug, Clone, PartialEq, Serialize, Deserialize)]
+pub struct F29 {
+    #[serde(default)]
+    pub a: Vec<String>,
+    #[serde(default)]
+    pub b: Vec<SelfNest>,
+    #[serde(default)]
+    pub d: Vec<u32>,
+}
+
 /// list of strings in an attribute (items escaped for the attribute quote) next to another attribute
 #[derive(Debug, Clone, PartialEq, Serialize, Deserialize)]
 pub struct F24 {
@@ -269,7 +285,7 @@ pub struct H06 {
     pub a: Hostile,
 }
 
-pub const TYPES: &[&str] = &["F01", "F02", "F03", "F04", "F05", "F07", "F08", "F11", "F15", "F16", "F17", "F18", "F19", "F20", "F22", "F23", "F24", "F25", "F26", "F27", "F28", "H01", "H02", "H05", "H06"];
+pub const TYPES: &[&str] = &["F01", "F02", "F03", "F04", "F05", "F07", "F08", "F11", "F15", "F16", "F17", "F18", "F19", "F20", "F22", "F23", "F24", "F25", "F26", "F27", "F28", "F29", "H01", "H02", "H05", "H06"];
 
 /// Apply `$body` with `T` bound to the family type named `$name`.
 #[macro_export]
@@ -295,6 +311,7 @@ macro_rules! with_type {
             "F24" => { type $T = $crate::family::F24; $body }
             "F25" => { type $T = $crate::family::F25; $body }
             "F26" => { type $T = $crate::family::F26; $body }
+            "F29" => { type $T = $crate::family::F29; $body }
             "F27" => { type $T = $crate::family::F27; $body }
             "F28" => { type $T = $crate::family::F28; $body }
             "H01" => { type $T = $crate::family::H01; $body }
